@@ -2,6 +2,7 @@
 # tools/mutant.sh <patch.diff> <check-id>...   applies a property-breaking patch, confirms the repository's own
 # tests still pass, runs the given checks (quick) and reverts. Prints one line per check.
 # Default: the patch is applied to /repo itself (git apply … run … git checkout -- .).
+# MUT_SNAP=1: the checks run from a snapshot of /verif's committed HEAD (under /tmp, removed afterwards).
 # MUT_WT=1: the patch is applied to a scratch worktree of /repo under /tmp and the checks are pointed at it with
 # KV_REPO, so that /repo stays untouched (needed while something else, e.g. a thorough run, builds from /repo).
 set -u
@@ -25,7 +26,15 @@ if [ "${SKIP_TESTS:-}" = "" ]; then
   t=$(go1.26 test -count=1 ./... 2>&1 | grep -c "^FAIL\|^--- FAIL")
   if [ "$t" != "0" ]; then echo "MUTANT-FAILS-OWN-TESTS ($t)"; [ "${FORCE:-}" = "" ] && exit 4; fi
 fi
-cd /verif
+vdir=/verif
+if [ "${MUT_SNAP:-}" != "" ]; then
+  # run the COMMITTED machinery (a snapshot of /verif's HEAD under /tmp), so that edits in progress in /verif and
+  # this evaluation do not disturb each other; the snapshot is removed afterwards
+  vdir=/tmp/verif-snap-$$
+  mkdir -p "$vdir" && git -C /verif archive HEAD | tar -x -C "$vdir"
+  trap 'rm -rf "$vdir"; [ -n "${KV_REPO:-}" ] && { git -C /repo worktree remove --force "$tree" 2>/dev/null; git -C /repo worktree prune; } || { cd /repo && git checkout -- . && git clean -fdq klog; }' EXIT
+fi
+cd "$vdir"
 for id in "$@"; do
   out=$(KV_BUDGET_S=${KV_BUDGET_S:-240} ./check "$id" quick 2>&1)
   rc=$?
